@@ -66,3 +66,70 @@ def run_command(prog, sm, table, flagdefs, cmd, loop_bound=40, max_paths=20000):
     exc.skip_init = True
     rs = exc.run(f.name, args=[Opaque('clictx', flag_defaults=flagdefs.get(cmd, {}))])
     return rs, exc
+
+
+def half_loaded_rule(run, prog, sm, table, flagdefs, cmds, paths=None):
+    """on every path of the commands: once loading the keys file has failed, the command ends -- no later use of the returned system.
+    returns the list of (cmd, offending api) findings and records one obligation per command"""
+    findings = []
+    for cmd in cmds:
+        rs = paths.get(cmd) if paths else None
+        if rs is None:
+            rs, exc = run_command(prog, sm, table, flagdefs, cmd)
+            if rs is None:
+                continue
+            if exc.incomplete or any(r.status not in ('ok', 'infeasible') for r in rs):
+                bad = [r for r in rs if r.status not in ('ok', 'infeasible')]
+                run.inconclusive.append('%s: %s' % (cmd, exc.incomplete or ('path ends with %s: %s' % (bad[0].status, str(bad[0].info)[:150]))))
+                continue
+            rs = [r for r in rs if r.status == 'ok']
+        worst = None
+        for r in rs:
+            evs = [e for e in r.state.events if e[0] == 'api']
+            for i, e in enumerate(evs):
+                if e[1] in ('ReadSystemFromFile', 'ReadSystemFromS3') and e[2] == 'err' and i + 1 < len(evs):
+                    worst = evs[i + 1][1]
+        run.obligation('%s: when loading the keys file fails the command ends there (nothing goes on to use the half-loaded system)' % cmd, 'unsat' if worst is None else 'sat', 'unsat', 0.0, paths=len(rs))
+        if worst is not None:
+            findings.append((cmd, worst))
+    return findings
+
+
+def native_truncated_cli():
+    """built binary: prove / verify with a keys file cut inside each section end with the error exit (status 1), no Go panic, nothing on stdout"""
+    import os, subprocess, tempfile, json
+    from common import GOENV
+    d = tempfile.mkdtemp(prefix='clitr_', dir=scratch())
+    exe = os.path.join(d, 'gnark-mbu')
+    out = {'failed': [], 'log': []}
+    p = subprocess.run(['go', 'build', '-o', exe, '.'], cwd=REPO, env=GOENV, stdout=subprocess.PIPE, stderr=subprocess.STDOUT, text=True)
+    if p.returncode:
+        out['log'].append('build failed: ' + p.stdout[-400:])
+        return out
+
+    def sh(args, stdin=None):
+        q = subprocess.run([exe] + args, input=stdin, stdout=subprocess.PIPE, stderr=subprocess.PIPE, text=True, timeout=600, cwd=d)
+        return q.returncode, q.stdout, q.stderr
+    keys = os.path.join(d, 'keys')
+    rc, so, se = sh(['setup', '--mode', 'deletion', '--output', keys, '--tree-depth', '2', '--batch-size', '1'])
+    rc2, params, se = sh(['gen-test-params', '--mode', 'deletion', '--tree-depth', '2', '--batch-size', '1'])
+    if rc or rc2:
+        out['log'].append('setup failed')
+        return out
+    rcp, proof, se = sh(['prove', '--mode', 'deletion', '--keys-file', keys], stdin=params)
+    h = json.loads(params)['inputHash']
+    data = open(keys, 'rb').read()
+    raw = keys + '_raw'
+    sh(['convert-to-raw', '--input', keys, '--output', raw])      # absent on trees without the command: then only one format is cut
+    files = [('compressed', data)] + ([('raw', open(raw, 'rb').read())] if os.path.exists(raw) else [])
+    for fmt, blob in files:
+        for cut in (0, 5, 8, len(blob) // 3, len(blob) // 2, len(blob) - len(blob) // 50, len(blob) - 1):
+            tk = keys + '_cut'
+            open(tk, 'wb').write(blob[:cut])
+            for cmd, args, stdin in (('prove', ['prove', '--mode', 'deletion', '--keys-file', tk], params), ('verify', ['verify', '--mode', 'deletion', '--keys-file', tk, '--input-hash', h], proof)):
+                rc, so, se = sh(args, stdin=stdin)
+                ok = rc == 1 and 'goroutine ' not in se and 'panic:' not in se and so.strip() == ''
+                out['log'].append('%s %s cut %d/%d: rc=%d' % (cmd, fmt, cut, len(blob), rc))
+                if not ok:
+                    out['failed'].append('%s with a %s keys file cut at %d of %d bytes ends with the error exit and no panic (rc=%d%s)' % (cmd, fmt, cut, len(blob), rc, ', Go panic' if 'goroutine ' in se else ''))
+    return out
